@@ -355,8 +355,18 @@ bool Model::do_reply(int c, const JV &req, bool is_error) {
 	const JV *id = req.get("id");
 	if (!id || id->t != JV::Str) return false; // the daemon drops a peer that sends a response without a string id
 	const JV *payload = req.get(is_error ? "error" : "result");
-	for (auto &r : routed) {
+	// which routed frame this answer was written for (the harness's owners put a unique token into every answer)
+	int answered_ref = -1;
+	if (payload) { std::string tok = payload->t == JV::Obj ? payload->gets("tok") : ""; if (tok.empty() && payload->t == JV::Obj) { std::string m = payload->gets("message"); size_t sp = m.rfind(' '); if (sp != std::string::npos) tok = m.substr(sp + 1); } auto ri = reply_instance.find(tok); if (ri != reply_instance.end()) answered_ref = ri->second; }
+	for (size_t ix = 0; ix < routed.size(); ix++) {
+		Routed &r = routed[ix];
 		if (r.state != 0 || !r.rid_known || r.rid != id->s || r.owner != c) continue;
+		if (answered_ref >= 0 && answered_ref != (int)ix) {
+			// the answer was written for an earlier request that is no longer in flight (it timed out) and merely carries an id the daemon has issued again:
+			// "a reply that arrives after the timeout answer is discarded without any effect"
+			host->probe("late_reply_carries_reissued_id");
+			return true;
+		}
 		r.state = 1;
 		host->probe("owner_replied");
 		if (r.has_id && peers[r.caller].alive) {
@@ -494,6 +504,9 @@ bool Model::do_passwd(int c, const JV &req, const JV &params) {
 	bool admin = users[p.user].admin;
 	if (it->second.readonly || !(p.user == u->s || admin)) { host->probe("passwd_refused"); respond(c, req, Exp::R_ERR_DAEMON, "C20", "passwd not allowed"); return true; }
 	if (!it->second.has_password) { respond(c, req, Exp::R_ERR_DAEMON, "C20", "no password entry"); return true; }
+	// crypt(3) does not hash a passphrase of 512 bytes or more (CRYPT_MAX_PASSPHRASE_SIZE): such a change cannot be carried out, so it must be refused -
+	// answering it with success would leave an account that neither password opens
+	if (pw->s.size() >= 512) { host->probe("passwd_too_long_for_crypt"); respond(c, req, Exp::R_ERR_DAEMON, "C20", "passwd with a passphrase crypt(3) cannot hash"); return true; }
 	host->probe(p.user == u->s ? "passwd_self" : "passwd_by_admin");
 	std::string oldpw = it->second.password, user = u->s, newpw = pw->s;
 	if (!passwd_may_fail) {
